@@ -197,7 +197,9 @@ def run_split(spec, res: Result):
                 ok = False
                 break
             for wv in out.memory_writes:
-                img[wv.address] = wv.value
+                # the continuous run's memory wraps addresses at 24 bits (vt.pyside.FlatMem); a multi-byte write that
+                # runs past 0xFFFFFF must land on the same cells in the caller-maintained image of the split run
+                img[wv.address & 0xFFFFFF] = wv.value
             snap = out.registers
             got = {"BA": snap.ba, "I": snap.i, "X": snap.x, "Y": snap.y, "U": snap.u, "S": snap.s}
             fields = [k for k in got if got[k] != p["regs"][k]]
